@@ -279,6 +279,13 @@ Proof.
   - constructor; simpl; auto. intros p0 hd H. apply L in H. lia.
 Qed.
 
+Lemma cmd_new_mono i s p : hid_inv (q_net s) -> next_hid (q_net s) <= next_hid (q_net (fst (fst (cmd_new i s p)))).
+Proof.
+  intro N. unfold cmd_new. destruct (step (q_net s) (ONew i)) as [n' o] eqn:E.
+  destruct (step_next_mono (q_net s) (ONew i) N) as [M _]. rewrite E in M. simpl in M.
+  destruct o; simpl; auto.
+Qed.
+
 (* removing a physical id that no remaining unit module maps *)
 Lemma hinv_unuse s p :
   hinv s -> (forall app um a, alookup app (h_units (q_host s)) = Some um -> nth_error um a <> Some (Some p)) ->
@@ -381,7 +388,11 @@ Proof.
           * rewrite nth_error_upd_neq in H4 by auto. destruct (J _ _ _ _ _ _ _ H1 H2 EU H4); auto.
         + rewrite alookup_aset_neq in H1, H3 by auto. eauto. }
     pose proof (hinv_cmd_new i _ (PP p) H1) as H2.
-    destruct (cmd_new i (mkQ (q_net s) h1) (PP p)) as [[s2 ok] tr]. exact H2.
+    pose proof (cmd_new_mono i (mkQ (q_net s) h1) (PP p) (inv_net _ H1)) as M.
+    destruct (cmd_new i (mkQ (q_net s) h1) (PP p)) as [[s2 ok] tr]. simpl in H2, M.
+    destruct ok; [exact H2|]. simpl.
+    destruct H as [N U J L Q]. constructor; simpl; auto; [apply (inv_net _ H2)|].
+    intros p1 hd Hp. apply L in Hp. lia.
   - (* init *)
     destruct (handle_of (q_host s) app a) as [hd|]; [|exact H].
     pose proof (hinv_native s (OMeas hd true coin) H) as H1.
@@ -474,7 +485,7 @@ Proof.
   destruct (nth_error um a) as [[p0|]|] eqn:EA; try discriminate.
   assert (La : a < length um) by (apply nth_error_Some; congruence).
   unfold cmd_new. simpl. destruct (step (q_net s) (ONew i)) as [n' o] eqn:ES.
-  destruct o; try discriminate. intro E. inversion E; subst. simpl.
+  destruct o; simpl; try discriminate. intro E. inversion E; subst. simpl.
   split; [|split; [|split]].
   - unfold handle_of, position; simpl. rewrite alookup_aset_eq, nth_error_upd_eq by auto.
     unfold virt_of; simpl. apply plookup_pset_eq.
